@@ -11,6 +11,7 @@ CONSTANTS
   ContainMode = "ancestry"
   DestMode = "normalised"
   CopyMode = "content"
+  CollectOrder = "configs-then-denylist"
   DenyFactories = {}
   DenyMax = 0
 POSTCONDITION Post
